@@ -479,3 +479,9 @@ func init() {
 		},
 	})
 }
+
+type journalT = journal.Journal
+
+func buildJournal(feeds []*gtfs.Realtime, start, end time.Time) *journal.Journal {
+	return journal.BuildJournal(&sliceSource{feeds: feeds}, start, end)
+}
